@@ -190,46 +190,74 @@ theorem termMat_sq_graded (L : ℕ) (kinds : List Bool) (coeffs : Array GQ) :
       rw [he, List.range_zero, List.foldl_nil]
       exact ⟨zeros_sq _, by rw [toM_zeros]; exact Graded.zero⟩
 
-theorem gradeOf_kindsS : gradeOf kindsS = 0 := by decide
-theorem gradeOf_kindsD : gradeOf kindsD = 0 := by decide
+/-- bridging fact over the generated table: in every branch of `as_matrix` every cluster term has as many creators as
+annihilators -/
+theorem branches_balanced : ∀ b ∈ QibGen.Vqe.branches, ∀ k ∈ b.2, gradeOf k = 0 := by decide
 
-/-- every cluster matrix produced by `quccTerms` is `2^L × 2^L` and number balanced -/
-theorem quccTerms_sq_graded (L : ℕ) (exc : Exc) (params : Array GQ) (Ts : List Mat)
-    (h : quccTerms L exc params = .ok Ts) :
-    ∀ T ∈ Ts, T.Sq (2 ^ L) ∧ Graded (wt L) 0 (T.toM (2 ^ L)) := by
+theorem kindsOf_balanced (exc : String) (kss : List (List Bool)) (h : kindsOf exc = some kss) :
+    ∀ k ∈ kss, gradeOf k = 0 := by
+  unfold kindsOf at h
+  cases hf : QibGen.Vqe.branches.find? (fun b => b.1 == exc) with
+  | none => rw [hf] at h; cases h
+  | some b =>
+    rw [hf] at h
+    simp only [Option.map_some, Option.some.injEq] at h
+    subst h
+    exact branches_balanced b (List.mem_of_find?_eq_some hf)
+
+theorem sliceTerms_sq_graded (L : ℕ) (kss : List (List Bool)) (params : Array GQ) (off : ℕ)
+    (h : ∀ k ∈ kss, gradeOf k = 0) :
+    ∀ T ∈ sliceTerms L kss params off, T.Sq (2 ^ L) ∧ Graded (wt L) 0 (T.toM (2 ^ L)) := by
+  induction kss generalizing off with
+  | nil => intro T hT; simp [sliceTerms] at hT
+  | cons k ks ih =>
+    intro T hT
+    simp only [sliceTerms, List.mem_cons] at hT
+    rcases hT with rfl | hT
+    · have := termMat_sq_graded L k (params.extract off (off + L ^ k.length))
+      rw [h k (List.mem_cons_self ..)] at this
+      exact this
+    · exact ih _ (fun k' hk' => h k' (List.mem_cons_of_mem _ hk')) T hT
+
+theorem sliceTerms_length (L : ℕ) (kss : List (List Bool)) (params : Array GQ) (off : ℕ) :
+    (sliceTerms L kss params off).length = kss.length := by
+  induction kss generalizing off with
+  | nil => rfl
+  | cons k ks ih => simp [sliceTerms, ih]
+
+theorem quccTerms_ok (L : ℕ) (exc : String) (params : Array GQ) (Ts : List Mat) (h : quccTerms L exc params = .ok Ts) :
+    ∃ kss, kindsOf exc = some kss ∧ params.size = paramCount L kss ∧ Ts = sliceTerms L kss params 0 := by
   unfold quccTerms at h
-  split at h
-  · cases h
-  · have hS := fun c => termMat_sq_graded L kindsS c
-    have hD := fun c => termMat_sq_graded L kindsD c
-    rw [gradeOf_kindsS] at hS
-    rw [gradeOf_kindsD] at hD
-    cases exc <;> simp only [Except.ok.injEq] at h <;> subst h <;> intro T hT <;>
-      simp only [List.mem_cons, List.not_mem_nil, or_false] at hT
-    · rw [hT]; exact hS _
-    · rw [hT]; exact hD _
-    · rcases hT with rfl | rfl
-      · exact hS _
-      · exact hD _
-
-theorem quccTerms_length (L : ℕ) (exc : Exc) (params : Array GQ) (Ts : List Mat)
-    (h : quccTerms L exc params = .ok Ts) : Ts.length = if exc = .sd then 2 else 1 := by
-  unfold quccTerms at h
-  split at h
-  · cases h
-  · cases exc <;> simp only [Except.ok.injEq] at h <;> subst h <;> rfl
-
-theorem quccTerms_ok_iff (L : ℕ) (exc : Exc) (params : Array GQ) :
-    (∃ Ts, quccTerms L exc params = .ok Ts) ↔ params.size = numParameters L exc := by
-  unfold quccTerms
-  constructor
-  · rintro ⟨Ts, h⟩
+  cases hk : kindsOf exc with
+  | none => rw [hk] at h; cases h
+  | some kss =>
+    rw [hk] at h
+    simp only at h
     split at h
     · cases h
-    · rename_i hn; exact not_not.mp hn
-  · intro h
-    rw [if_neg (not_not.mpr h)]
-    cases exc <;> exact ⟨_, rfl⟩
+    · rename_i hn
+      simp only [Except.ok.injEq] at h
+      exact ⟨kss, rfl, not_not.mp hn, h.symm⟩
+
+/-- every cluster matrix produced by `quccTerms` is `2^L × 2^L` and number balanced -/
+theorem quccTerms_sq_graded (L : ℕ) (exc : String) (params : Array GQ) (Ts : List Mat)
+    (h : quccTerms L exc params = .ok Ts) :
+    ∀ T ∈ Ts, T.Sq (2 ^ L) ∧ Graded (wt L) 0 (T.toM (2 ^ L)) := by
+  obtain ⟨kss, hk, _, rfl⟩ := quccTerms_ok L exc params Ts h
+  exact sliceTerms_sq_graded L kss params 0 (kindsOf_balanced exc kss hk)
+
+theorem quccTerms_ok_iff (L : ℕ) (exc : String) (params : Array GQ) :
+    (∃ Ts, quccTerms L exc params = .ok Ts) ↔ ∃ kss, kindsOf exc = some kss ∧ params.size = paramCount L kss := by
+  constructor
+  · rintro ⟨Ts, h⟩
+    obtain ⟨kss, hk, hs, _⟩ := quccTerms_ok L exc params Ts h
+    exact ⟨kss, hk, hs⟩
+  · rintro ⟨kss, hk, hs⟩
+    unfold quccTerms
+    rw [hk]
+    simp only
+    rw [if_neg (not_not.mpr hs)]
+    exact ⟨_, rfl⟩
 
 end Qib.Vqe
 
